@@ -132,3 +132,12 @@ Example dtostre_demo :
   layout [49;50;48] (-3) 3 true = ([45;48;46;48;48;48;49;50], false) /\
   layout [49;50;51;52] 3 4 false = ([49;50;51;46;52], false).
 Proof. vm_compute. repeat split. Qed.
+
+(* the value zero: scpi_ecvt hands P zeros and exponent 0, the layout answers "0" (with the sign of a negative zero) *)
+Theorem dtostre_zero P neg : 1 <= P <= 15 -> layout (repeat 48 (Z.to_nat P)) 0 P neg = ((if neg then [45] else []) ++ [48], false).
+Proof.
+  intro HP.
+  assert (HPc : P = 1 \/ P = 2 \/ P = 3 \/ P = 4 \/ P = 5 \/ P = 6 \/ P = 7 \/ P = 8 \/ P = 9 \/ P = 10 \/ P = 11 \/ P = 12 \/ P = 13 \/ P = 14 \/ P = 15) by lia.
+  destruct neg; repeat (destruct HPc as [->|HPc]; [vm_compute; reflexivity|]); subst; vm_compute; reflexivity.
+Qed.
+Print Assumptions dtostre_zero.
